@@ -45,7 +45,10 @@ def cases(tier, seed):
         for n_out in (1, 2):
             for w in ("scalar", "vector"):
                 for (nt, nx, cart) in ((1, 1, True), (2, 3, True), (3, 2, True), (2, 2, False), (3, 3, False)):
-                    out.append(dict(type="ic", kind="nonstatio", d=d, n_out=n_out, weight=w, nt=nt, nx=nx, cart=cart))
+                    # the prescribed initial state may be returned as a vector of components, or (single output)
+                    # as a 0-d array / Python-like scalar per point
+                    for icshape in (("vec", "0d") if n_out == 1 else ("vec",)):
+                        out.append(dict(type="ic", kind="nonstatio", d=d, n_out=n_out, weight=w, nt=nt, nx=nx, cart=cart, icshape=icshape))
     # normalisation
     for kind in ("statio", "nonstatio"):
         for d in B["dims"]:
@@ -58,6 +61,12 @@ def cases(tier, seed):
                         for (n_out, comp) in (((1, 0), (2, 1)) if kind == "statio" else ((1, 0),)):
                             out.append(dict(type="norm", kind=kind, d=d, ns=ns, vol=vol, nt=nt, n_out=n_out, comp=comp))
     # observations
+    # networks wider than the solution: slice_solution then obs_slice (incl. negative indices) select the observed components
+    for kind in ("ode", "statio", "nonstatio"):
+        for (ssl, osl) in itertools.product(("all", "0:2", "1:3"), ("all", "0:1", "-1:", "1:2")):
+            if osl == "1:2" and ssl == "all":
+                pass
+            out.append(dict(type="obs", kind=kind, d=0 if kind == "ode" else 1, n_out=3, rows=2, oslice=osl, sslice=ssl, weight="scalar", obs_param=False))
     for kind in ("ode", "statio", "nonstatio"):
         for d in ([0] if kind == "ode" else B["dims"]):
             for n_out in (1, 2):
@@ -99,7 +108,10 @@ def run_case(case):
             else:
                 pts = np.concatenate([tpts[:, None], xpts], axis=1)
             amp = np.array([1.0, -0.5][:n_out])
-            ic = lambda x: jnp.asarray(amp) * jnp.sin(x[0]) + 0.1 * jnp.sum(x)
+            if case.get("icshape", "vec") == "0d":
+                ic = lambda x: amp[0] * jnp.sin(x[0]) + 0.1 * jnp.sum(x)
+            else:
+                ic = lambda x: jnp.asarray(amp) * jnp.sin(x[0]) + 0.1 * jnp.sum(x)
             loss = L.quiet(jinns.loss.LossPDENonStatio, u=u, dynamic_loss=None, initial_condition_fun=ic,
                            loss_weights=jinns.loss.LossWeightsPDENonStatio(initial_condition=jnp.asarray(wv) if case["weight"] == "vector" else wv), params=params)
             batch = L.make_batch(kind, pts)
@@ -144,12 +156,17 @@ def run_case(case):
     else:
         obs_param = case["obs_param"]
         it = (lambda inp, p: inp * p.eq_params["k"]) if obs_param else None
-        u, coef, expo = L.make_u(kind, d, n_out, deg=2, salt=4, input_transform=it)
+        SL = {"all": slice(None), "0:2": slice(0, 2), "1:3": slice(1, 3), "0:1": slice(0, 1), "-1:": slice(-1, None), "1:2": slice(1, 2), "one": slice(1, 2)}
+        ssl = case.get("sslice", "all")
+        kw_u = {} if ssl == "all" else {"slice_solution": SL[ssl]}
+        u, coef, expo = L.make_u(kind, d, n_out, deg=2, salt=4, input_transform=it, **kw_u)
         params = jinns.parameters.Params(nn_params=u.init_params(), eq_params={"a": jnp.asarray(0.7), "k": jnp.asarray(1.0)})
         rows = case["rows"]
         pin = L.points(rows, nv, salt=8)
-        osl = jnp.s_[...] if case["oslice"] == "all" else jnp.s_[1:2]
-        ncol = n_out if case["oslice"] == "all" else 1
+        osl = jnp.s_[...] if case["oslice"] == "all" else SL[case["oslice"]]
+        sel = list(range(n_out))[SL[ssl]]
+        sel = sel if case["oslice"] == "all" else sel[SL[case["oslice"]]]
+        ncol = len(sel)
         val = np.linspace(-0.3, 0.9, rows * ncol).reshape(rows, ncol)
         wv = 0.5 if case["weight"] == "scalar" else np.array([1.0, 0.3])
         kcol = np.array([0.6 + 0.35 * i for i in range(rows)])
@@ -164,8 +181,7 @@ def run_case(case):
         batch = L.make_batch(kind, L.points(rows, nv), obs=obs)
         zin = pin * (kcol[:, None] if obs_param else 1.0)
         U = L.jets(coef, expo, zin, [()])[()].T  # (rows, n_out)
-        if case["oslice"] == "one":
-            U = U[:, 1:2]
+        U = U[:, sel]
         exp = float(np.mean(np.sum(np.asarray(wv) * (U - val) ** 2, axis=-1)))
         got = float(L.jit_eval(loss, params, batch)[1]["observations"])
         if not close(got, exp):
